@@ -854,9 +854,16 @@ def run(rep, tier):
     rep.saw_programs(progs.values())
     seen = 0
     rep.rule('R17d', 'assignment from empty braces is the zero vector (overload-resolution witness)', floor=1)
+    rep.rule('R04f', 'deserialisation (the assignment path of the MPI variants) restores the whole coordinate list on every path', floor=1)
+    from . import c04
     for prog in progs.values():
         seen = max(seen, check_program(rep, prog))
         check_brace_assignment(rep, prog)
+        sub = type(rep)(rep.prop, rep.tier)
+        c04.check_wire(sub, prog)
+        for i in sub.instances.values():
+            if 'SpVecGF2' in i.function:
+                rep.add(i.rule, i.site, i.function, i.what, i.status, i.detail, key=i.key)
     if seen < 3:
         rep.analysis_broken('SpVecGF2 operator+ / operator*(SpVecGF2) / operator*(std::set) not all instantiated (%d found)' % seen)
     pos = os.path.join(env.WITNESS, 'positive', 'c17_spvec.cc')
